@@ -45,6 +45,7 @@ def check(ck):
         _stateless_rules(ck, repo, w)
     with ck.rule("R5"):
         _document_level(ck, repo, w)
+        usage_walk_terms(ck, repo)
     with ck.rule("R6"):
         rule_tables(ck, repo, w)
         values_of_correct_type_table(ck, repo)
@@ -324,37 +325,8 @@ def _document_level(ck, repo, w):
     rv = FuncView(fr)
     ex = [r for r in rv.returns() if unparse(r.value) == "[]" and any(("__typename" in t or "startswith('__')" in t) and o == "T" for t, o in rv.conditions(r))]
     ck.ob("field-existence rule: `__typename` is accepted on every composite type", bool(ex), fr, ex[0] if ex else fr.node, construct="meta-field:exempt")
-    # variable usage follows spreads (variables used only inside fragments)
-    u = repo.func(RULES_PKG + "utils.py", "_find_var_usage_in_spread")
-    uv = FuncView(u)
-    rec = [c for c in uv.calls(u.name)]
-    ok = len(rec) == 1 and "'spreads'" in unparse(rec[0].args[0])
-    ck.ob("variable usage is collected through fragment spreads, recursively", ok, u, rec[0] if rec else u.node, construct="vars:through-spreads")
-    for rel, fname in ((RULES_PKG + "utils.py", "_find_var_usage_in_spread"), (RULES_PKG + "all_variable_usages_are_allowed.py", "_find_args_using_var_in_spread")):
-        fn = repo.func(rel, fname)
-        fnv = FuncView(fn)
-        acc = fn.positional_params[2]
-        rebound = [n for n in walk_no_nested(fn.node) if isinstance(n, ast.Assign) and unparse(n.targets[0]) == acc and unparse(n.value) in ("[]", "list()")]
-        for c in fnv.calls(fname):
-            st = fnv.stmt_of(c)
-            threaded = isinstance(st, ast.Assign) and unparse(st.targets[0]) == acc and st.value is c and unparse(c.args[-1]) == acc
-            ck.ob(f"{fname}: the accumulator returned by the recursive call is the one kept (the callee replaces an empty accumulator by a new list)", threaded or not rebound, fn, c,
-                  construct=f"threading:{fname}", detail="a bare recursive call loses everything found below when the accumulator was still empty: variables used only in nested fragments look unused")
-        rets = fnv.returns()
-        ck.ob(f"{fname} returns its accumulator", len(rets) == 1 and unparse(rets[0].value) == acc, fn, rets[0] if rets else fn.node, construct=f"threading:{fname}:return")
-        ext = [c for c in fnv.calls("extend") if unparse(c.func.value) == acc]
-        lp = fnv.enclosing(ext[0], (ast.For,)) if ext else None
-        ck.ob(f"{fname}: every spread contributes what its fragment uses", len(ext) == 1 and lp is not None and unparse(lp.iter) == fn.positional_params[0] and
-              not any(isinstance(x, (ast.Break, ast.Continue, ast.Return)) for x in walk_no_nested(lp)), fn, ext[0] if ext else fn.node, construct=f"threading:{fname}:extend")
-    g = repo.func(RULES_PKG + "utils.py", "get_used_vars")
-    gv = FuncView(g)
-    ok = gv.maybe_call("_find_var_usage_in_spread") is not None
-    ck.ob("get_used_vars adds the variables used by the fragments an operation spreads", ok, g, g.node, construct="vars:operation-plus-fragments")
-    a = repo.func(RULES_PKG + "all_variable_usages_are_allowed.py", "_find_args_using_var_in_spread")
-    av = FuncView(a)
-    rec = [c for c in av.calls(a.name)]
-    ck.ob("argument usages are collected through fragment spreads, recursively", len(rec) == 1 and "'spreads'" in unparse(rec[0].args[0]), a,
-          rec[0] if rec else a.node, construct="args:through-spreads")
+    # variable / argument usage through fragment spreads: decided on abstract documents by usage_walk_terms (E13) - the walk may be
+    # written with a threaded accumulator, a visited set or per-fragment results, in one helper or two
 
 
 # ---------------------------------------------------------------------------
@@ -851,3 +823,107 @@ def cycle_rule_terms(ck, repo):
     ck.ob("cycle rule: reports exactly the spread graphs in which a fragment reaches itself (a fragment spread twice or shared by two fragments is not a cycle)", not bad, f, f.node,
           construct="cycle:graphs", evals=n)
     ck.count("cycle_rule_graphs", n, 500)
+
+
+# ---------------------------------------------------------------------------
+# E13: the collectors behind 5.8.3 / 5.8.4 / 5.8.5 on abstract documents
+# ---------------------------------------------------------------------------
+
+
+def _usage_collectors(repo):
+    """(label, function, entry key) of the two collectors: what an operation uses, directly and through the fragments it spreads."""
+    out = [("get_used_vars", repo.func(RULES_PKG + "utils.py", "get_used_vars"), "used_vars")]
+    mod = repo.mod(RULES_PKG + "all_variable_usages_are_allowed.py")
+    vo = mod.cls("AllVariableUsagesAreAllowed").methods.get("_validate_operation")
+    cand = None
+    if vo is not None:
+        for c in ast.walk(vo.node):
+            if isinstance(c, ast.Call) and isinstance(c.func, ast.Name) and len(c.args) == 3 and [unparse(a) for a in c.args] == ["operation", "per_operation", "per_fragment"]:
+                cand = mod.funcs.get(c.func.id)
+    if cand is None:
+        raise AnalysisError("AllVariableUsagesAreAllowed._validate_operation: the collector of argument usages (a call with operation, per_operation, per_fragment) not found")
+    out.append((cand.name, cand, "args_using_var"))
+    return out
+
+
+def usage_walk_terms(ck, repo):
+    """E13: `get_used_vars` and the argument-usage collector of 5.8.5 interpreted on abstract documents - two named operations
+    (or one anonymous) spreading any ordered selection of the fragments A, B, C, which spread each other along every acyclic
+    graph (the thorough tier adds undefined targets, spreads listed in the other order and a repeated spread); the operations are
+    asked in document order and the first one again, on the *same* per-operation / per-fragment tables, as the rules do.  Each
+    answer must hold, as a set, exactly the operation's own entries plus those of every fragment it reaches - however the walk is
+    written (an accumulator threaded through, a visited set, per-fragment results kept) - and nothing may raise."""
+    from .. import absint
+    from ..absint import RecV, Sym
+    import itertools as _it
+    names = ("A", "B", "C")
+    thorough = ck.tier == "thorough"
+    edge_sets = [[e for e, on in zip((("A", "B"), ("A", "C"), ("B", "C")), bits) if on] for bits in _it.product((0, 1), repeat=3)]
+    ordered = [list(p) for k in range(0, 4) for c in _it.combinations(names, k) for p in _it.permutations(c)]          # 16 ordered selections
+    subsets = [list(c) for k in range(0, 4) for c in _it.combinations(names, k)]                                       # 8
+    extras = [[]] + ([["Nope"], ["twice"], ["rev"]] if thorough else [["Nope"]])
+
+    def spread(t):
+        return RecV("FragmentSpreadNode", name=RecV("NameNode", value=t, _strict=True), _label="..." + t, _strict=True)
+
+    def opnode(nm):
+        return RecV("OperationDefinitionNode", name=RecV("NameNode", value=nm, _strict=True) if nm else None, _label=f"operation {nm}", _strict=True)
+
+    if not thorough:
+        ordered = [o for o in ordered if len(o) <= 2] + [list(names)]
+        subsets = [[], ["A"], ["B"], ["C"], list(names)]
+    for label, f, key in _usage_collectors(repo):
+        n, bad = 0, []
+        for edges, q1, q2, extra in _it.product(edge_sets, ordered, subsets if not thorough else ordered, extras):
+            if extra and not (edges and q1):
+                continue
+            graph = {x: [b for a, b in edges if a == x] for x in names}
+            if extra == ["Nope"]:
+                graph["A"] = ["Nope"] + graph["A"]
+            if extra == ["twice"]:
+                graph = {x: ts + ts[:1] for x, ts in graph.items()}
+            if extra == ["rev"]:
+                graph = {x: list(reversed(ts)) for x, ts in graph.items()}
+            docs = [(("Q1", q1), ("Q2", q2))]
+            if not q2 and not extra:
+                docs.append(((None, q1),))
+            for ops in docs:
+                def reach(ts, seen=None):
+                    seen = set() if seen is None else seen
+                    for t in ts:
+                        if t in graph and t not in seen:
+                            seen.add(t)
+                            reach(graph[t], seen)
+                    return seen
+                per_fragment = {x: {key: [Sym(f"{key}:{x}")], "spreads": [spread(t) for t in graph[x]]} for x in names}
+                per_operation = {(nm or "None"): {key: [Sym(f"{key}:{nm}")], "spreads": [spread(t) for t in sp]} for nm, sp in ops}
+                # the other collector's tables live in the same dictionaries
+                other = "args_using_var" if key == "used_vars" else "used_vars"
+                for d_ in list(per_fragment.values()) + list(per_operation.values()):
+                    d_[other] = [Sym("other")]
+                asked = [ops[0]] + list(ops[1:]) + [ops[0]]
+                for nm, sp in asked:
+                    want = {("sym", f"{key}:{nm}")} | {("sym", f"{key}:{x}") for x in reach(sp)}
+                    it = absint.Interp(repo, f.module, interpret={"tartiflette.language.validators.query.*"}, fuel=20000)
+                    try:
+                        got = it.run(f, [opnode(nm), per_operation, per_fragment])
+                        if not isinstance(got, (list, tuple)):
+                            kind = f"answers {got!r}"
+                        else:
+                            have = {absint.norm(x) for x in got}
+                            kind = None if have == want else f"misses {sorted(t[1] for t in want - have)}" if want - have else f"adds {sorted(str(t) for t in have - want)}"
+                    except absint.Unsupported as ex:
+                        raise AnalysisError(f"{f.short}: cannot be interpreted on abstract documents: {ex}")
+                    except absint.PyRaise as ex:
+                        kind = f"raises {ex.name} ({ex.text})"
+                    n += 1
+                    if kind:
+                        bad.append((graph, [(a, b) for a, b in ops], nm, kind))
+                        break
+        for graph, ops, nm, kind in bad[:4]:
+            shown = {k_: v_ for k_, v_ in graph.items() if v_}
+            ck.ob(f"{label}: operations {ops} over fragments spreading {shown}: operation {nm} uses its own entries and those of every fragment it reaches", False, f, f.node,
+                  construct=f"usage-walk:{label}:{ops}:{shown}"[:120], detail=kind)
+        ck.ob(f"{label}: for every operation, exactly its own {key} plus those of every fragment it reaches through spreads (asked in document order, on shared tables)", not bad, f, f.node,
+              construct=f"usage-walk:{label}", evals=n)
+        ck.count(f"usage_walk_documents_{key}", n, 900)
